@@ -94,7 +94,7 @@ package apk
 //@   before call (*merkleHasher).Finish(hh, d, mod): assert @end_record_digested_as_if_the_directory_started_where_the_signing_block_goes \
 //@        hh == hasher && d == dirG && d.DirLoc == next && mod
 //@   ensures @signing_block_goes_behind_the_last_member_and_the_directory_position_is_restored ret1 == nil ==> \
-//@        ret0 != nil && ret0.inz == dirG && ret0.sigLoc == next && dirG.DirLoc == orig && ret0.hash == hash
+//@        ret0 != nil && ret0.inz == dirG && ret0.sigLoc == next && dirG.DirLoc == orig && ret0.hash == hash && 0 <= next && next <= orig
 //@
 //@ func (*merkleHasher).Finish
 //@   property C05
@@ -109,3 +109,26 @@ package apk
 //@   before call (*zipslicer.Directory).WriteDirectory(d, w1, w2, f): assert @directory_and_end_record_serialised_from_the_given_archive_into_separate_buffers d == inz && w1 != w2 && !f
 //@   before call (*zipslicer.Directory).GetOriginalDirectory(d, trim): assert @original_directory_taken_with_the_gap_trimmed d == inz && trim
 //@   ensures @three_sections_closed ret1 == nil ==> writes == 2 && flushes == 3
+//@
+//@ func (*Digest).Sign
+//@   property C03 C08
+//@   requires d != nil && d.inz != nil && cert != nil && 0 <= d.sigLoc && d.sigLoc <= d.inz.DirLoc && d.inz.DirLoc <= 4294967295
+//@   ghost adds int = 0
+//@   ghost dirLen int = -1
+//@   before call (*binpatch.PatchSet).Add(_, off, sz, blob): assert @signing_block_replaces_exactly_the_gap_between_last_member_and_directory \
+//@        adds == 0 ==> off == d.sigLoc && sz == origDirLoc - d.sigLoc && sz >= 0 && sameslice(blob, block)
+//@   before call (*binpatch.PatchSet).Add(_, off, sz, blob): assert @end_record_behind_the_unchanged_directory_entries_is_rewritten_in_place \
+//@        adds == 1 ==> off == origDirLoc + len(blob) * 0 + dirLen && sz == len(blob) && adds <= 1
+//@   on call (*bytes.Buffer).Len(b) ret (n): dirLen = ite(b == addr(dirEnts), n, dirLen)
+//@   on call (*binpatch.PatchSet).Add(_, _, _, _) ret (): adds = adds + 1
+//@   before call (*zipslicer.Directory).WriteDirectory(dd, _, _, _): assert @directory_is_rewritten_for_its_new_position dd == d.inz && dd.DirLoc == d.sigLoc + len(block)
+//@   ensures @two_replacements ret1 == nil ==> adds == 2
+//@
+//@ func makeSigBlock
+//@   property C05 C11
+//@   nopanic
+//@   requires len(sblob) <= 4294967000
+//@   ensures @block_is_payload_plus_two_length_prefixes_type_and_magic len(ret0) == len(sblob) + 44
+//@   fresh ret0
+//@   modifies nothing
+//@   allocbound 0 len(sblob) + 44
